@@ -51,7 +51,6 @@ func prefix(c *evid.Case, env *qsim.Env, seed int64) (*qsim.Cluster, qsim.Config
 		cfg.N = 7
 	}
 	cfg.MaxSteps = rng.Intn(90 * cfg.N) // any prefix length, so intermediate states are sampled too
-	cfg.RunnerCompaction = rng.Intn(3) == 0 // a third of the cases: instances compacted as the real node's runner does
 	directed := rng.Intn(5) == 0
 	if directed {
 		// directed prefix "split prepare": all f Byzantine operators active, distinct start values
